@@ -449,7 +449,8 @@ func (s *sim) tryStart(n int) {
 type cmd struct {
 	kind byte   // 'o' new packet, 'i' the in packet itself, 'e' error packet, 'm' many, 'd' drop, 's' the in packet itself on outputs 0..k-1
 	v    val    // o, e
-	vs   []*val // m (nil = no packet for that port)
+	vs   []*val // m (nil = no packet for that port, or – with eq – the in packet itself)
+	eq   []bool // m: eq[i] = the in packet itself on port i (`=`)
 	k    int    // s
 }
 
@@ -475,14 +476,18 @@ func (s *sim) release(n int, c cmd) bool {
 		writes = []wr{{0, c.v}}
 	case 'm':
 		for i, v := range c.vs {
-			if v != nil && i < nOut(spec) {
+			if i >= nOut(spec) {
+				continue
+			}
+			if c.eq[i] {
+				writes = append(writes, wr{i + 1, r.pay})
+			} else if v != nil {
 				writes = append(writes, wr{i + 1, *v})
 			}
 		}
 	case 's':
-		// the same packet on several outputs: every write is a request of its own downstream (Write
-		// copies); the answers are joined in the order they come back, which is the write order when
-		// all these outputs lead to one in-port (the only shape the generator produces)
+		// the same packet on several outputs: every write is a request of its own downstream (the node
+		// hands its tracer a copy per output: node.derive); the answers are joined in port order
 		for i := 0; i < c.k && i < nOut(spec); i++ {
 			writes = append(writes, wr{i + 1, r.pay})
 		}
@@ -624,6 +629,8 @@ func buildRig(g *gspec) *rig {
 					return packet.New(toValue(c.v)), nil
 				case 'e':
 					return nil, packet.New(toValue(c.v))
+				case 'd':
+					return nil, nil
 				}
 				return in, nil
 			}))
@@ -638,7 +645,9 @@ func buildRig(g *gspec) *rig {
 				case 'm':
 					outs := make([]*packet.Packet, len(c.vs))
 					for j, v := range c.vs {
-						if v != nil {
+						if c.eq[j] {
+							outs[j] = in
+						} else if v != nil {
 							outs[j] = packet.New(toValue(*v))
 						}
 					}
@@ -963,8 +972,9 @@ func parseCmd(f []string) (cmd, bool) {
 	case len(f) >= 1 && f[0] == "m":
 		c := cmd{kind: 'm'}
 		for _, t := range f[1:] {
-			if t == "-" {
+			if t == "-" || t == "=" {
 				c.vs = append(c.vs, nil)
+				c.eq = append(c.eq, t == "=")
 				continue
 			}
 			v, ok := parseVal(t)
@@ -972,6 +982,7 @@ func parseCmd(f []string) (cmd, bool) {
 				return cmd{}, false
 			}
 			c.vs = append(c.vs, &v)
+			c.eq = append(c.eq, false)
 		}
 		return c, true
 	}
@@ -1035,7 +1046,7 @@ func (cr *caseRun) exec(line string) bool {
 			return false
 		}
 		kind := cr.g.nodes[n].kind
-		if (c.kind == 'i' && kind != 'o') || (c.kind == 'm' && kind != 'm') || (c.kind == 's' && kind != 'm') || (c.kind == 'o' && kind == 'm') || (c.kind == 'd' && kind == 'o') {
+		if (c.kind == 'i' && kind != 'o') || (c.kind == 'm' && kind != 'm') || (c.kind == 's' && kind != 'm') || (c.kind == 'o' && kind == 'm') {
 			return false
 		}
 		if !sm.release(n, c) {
@@ -1424,6 +1435,10 @@ func genStep(r *lib.RNG, c *lib.Ctx, cr *caseRun, at *atoms, toSend int) string 
 			case x < 75:
 				c.Hit("action-identity")
 				return o + " i"
+			case x < 84:
+				// (nil, nil): nothing to forward, no error – the request is answered with itself
+				c.Hit("action-drop-one-to-one")
+				return o + " d"
 			default:
 				c.Hit("action-fail")
 				return o + " e " + at.err()
@@ -1432,6 +1447,43 @@ func genStep(r *lib.RNG, c *lib.Ctx, cr *caseRun, at *atoms, toSend int) string 
 			if sortJoins && sameFanIn(cr.g, n) && r.Chance(1, 2) {
 				c.Hit("action-same-on-several-outputs")
 				return fmt.Sprintf("%s s %d", o, r.Range(2, spec.ar))
+			}
+			connected := func(i int) bool { return len(cr.g.targets(n, i+1)) > 0 }
+			if spec.ar >= 2 && x >= 88 {
+				// the in packet itself on several outputs, whatever they lead to (also unconnected ones:
+				// a refused write of the in packet next to an accepted one)
+				c.Hit("action-same-on-several-outputs")
+				for i := 0; i < spec.ar; i++ {
+					if !connected(i) {
+						c.Hit("action-same-with-refusing-port")
+						break
+					}
+				}
+				return fmt.Sprintf("%s s %d", o, r.Range(2, spec.ar))
+			}
+			if spec.ar >= 2 && x >= 76 {
+				// the in packet itself next to new packets / nothing. A port that gets the in packet is a
+				// connected one: on a tree without the fix `node.derive` the echo of a refused write of
+				// the in packet takes the slot of a NEW packet and the late answer to that packet indexes
+				// out of range (the process dies – no replay could be written)
+				parts := []string{o, "m"}
+				nEq, nOther := 0, 0
+				for i := 0; i < spec.ar; i++ {
+					switch {
+					case connected(i) && r.Chance(1, 2):
+						parts = append(parts, "=")
+						nEq++
+					case r.Chance(1, 5):
+						parts = append(parts, "-")
+					default:
+						parts = append(parts, at.fresh())
+						nOther++
+					}
+				}
+				if nEq > 0 && nOther > 0 {
+					c.Hit("action-in-packet-next-to-new-ones")
+					return strings.Join(parts, " ")
+				}
 			}
 			switch {
 			case x < 70:
@@ -1556,7 +1608,7 @@ func Run(c *lib.Ctx) {
 		"Writer/Reader honour the C01 contract on the paths used here (never closed, linked before the first write); the model of the edges in Uniflow.Flow is the fully-linked fragment only",
 		"each Tracer method is atomic (runs under Tracer.mu); the schedule interleaves whole forward iterations' Link/Write calls with backward Receive calls only at the points the harness controls (action blocked / sink holding); finer interleavings are covered by the theorem, not by the runs",
 		"no single schedule step delivers packets to two different in-ports of one many-to-one node (their grouping order would be a real race between two forward goroutines); the generator excludes such topologies",
-		"actions return fresh packets, or the in packet itself (one-to-one; one-to-many on several outputs only when all its outputs lead to one and the same in-port, and such a case compares the elements of every join as multisets (`orderfree`) – the tracer joins the answers to one packet written several times in arrival order, and the order in which the backward goroutines of two writers hand their answers to the tracer is not controlled by any schedule step); a one-to-one action never returns (nil, nil) (the Go code dereferences nil there)",
+		"actions return fresh packets, nothing (also one-to-one: (nil, nil)), or the in packet itself – one-to-one; one-to-many on one or several outputs (`s k`), also next to new packets (`m … = …`) and with unconnected outputs among them. A port that gets the in packet NEXT TO NEW packets is always a connected one (without the fix node.derive the refused write's echo takes a new packet's slot and the process dies when that packet is answered: no replay could be written); graphs whose fork outputs all lead to one in-port still compare joins as multisets (`orderfree`)",
 		"the source may write the packet object of its previous request once more (`resend`): Writer.Write hands every reader a packet of its own, so this is an independent request",
 	}
 	c.Trusted = []string{"node.VerifTracer / Tracer.VerifLen accessors (verif tag)", "the specification-level reference simulator in harness/c02 used as oracle and to know how many events to wait for"}
